@@ -100,6 +100,8 @@ func main() {
 		os.Exit(cmdReplay(os.Args[2:]))
 	case "build":
 		os.Exit(cmdBuild(os.Args[2:]))
+	case "manifest":
+		os.Exit(cmdManifest())
 	case "list":
 		for _, c := range checks {
 			fmt.Printf("%s  %s\n", c.ID, c.Title)
@@ -706,6 +708,86 @@ func cmdReplay(args []string) int {
 	if strings.Contains(string(out), "REPLAY-REPRODUCED") {
 		fmt.Printf("VIOLATION property=%s replay=%s\n", v.Property, abs)
 		return 1
+	}
+	return 0
+}
+
+// ---- manifest ----------------------------------------------------------------
+
+func cmdManifest() int {
+	type level struct {
+		Category  string `json:"category"`
+		Text      string `json:"text"`
+		DesignRef string `json:"design_ref"`
+	}
+	type mcheck struct {
+		PropertyID string `json:"property_id"`
+		Quick      string `json:"quick_cmd"`
+		Thorough   string `json:"thorough_cmd"`
+		Evidence   string `json:"evidence_file"`
+		Replay     string `json:"replay_cmd_template"`
+		Engine     string `json:"engine"`
+		Level      level  `json:"level_claimed"`
+		Note       string `json:"level_note"`
+		Technique  string `json:"technique"`
+	}
+	type na struct {
+		PropertyID string `json:"property_id"`
+		Reason     string `json:"reason"`
+	}
+	var mc []mcheck
+	claimed := map[string]bool{}
+	var served []string
+	for _, c := range checks {
+		if !strings.HasPrefix(c.ID, "C") {
+			continue
+		}
+		claimed[c.ID] = true
+		served = append(served, c.ID)
+		mc = append(mc, mcheck{
+			PropertyID: c.ID,
+			Quick:      "/verif/run.sh " + c.ID + " quick",
+			Thorough:   "/verif/run.sh " + c.ID + " thorough",
+			Evidence:   "/verif/evidence/" + c.ID + ".json",
+			Replay:     "/verif/run.sh replay {path}",
+			Engine:     "gomc",
+			Level:      level{Category: c.Level, Text: c.LevelText, DesignRef: "DESIGN.md section 5, " + c.ID},
+			Note:       strings.Join(c.Assumptions, "; "),
+			Technique:  c.Technique,
+		})
+	}
+	var nas []na
+	for i := 1; i <= 20; i++ {
+		id := fmt.Sprintf("C%02d", i)
+		if !claimed[id] {
+			nas = append(nas, na{id, "check not built yet (model-checking harness planned in DESIGN.md section 5); not claimed"})
+		}
+	}
+	m := map[string]interface{}{
+		"version":   1,
+		"setup_cmd": "cd /verif && ./setup.sh",
+		"hooks": map[string]interface{}{
+			"guard":            "verif",
+			"enable":           "no hooks are committed to /repo: vcheck rewrites the sources of the current working tree into a build overlay (go test -overlay ... -tags verif) on every run",
+			"baseline_off_cmd": "cd /repo && GOFLAGS=-mod=mod GOPROXY=off GOSUMDB=off GOTOOLCHAIN=local go test -json -vet=off -count=1 -timeout 25m ./...",
+			"source_commits":   []string{},
+			"add_only":         true,
+		},
+		"engines": []map[string]interface{}{{
+			"name": "gomc", "path": "/verif/rt/sched + /verif/internal/rewrite + /verif/cmd/vcheck", "serves_properties": served,
+			"kind_free_text": "hand-written stateless model checker for Go: source rewriter + controlled cooperative scheduler over real goroutines (preemption/deviation-bounded DFS, replayable choice lists), explicit-state BFS over operation histories with canonical-state de-duplication, bounded-exhaustive input enumeration",
+		}},
+		"checks":         mc,
+		"not_applicable": nas,
+		"notes":          "exit 0 = held on everything explored (KNOWN-FINDING lines allowed), 1 = VIOLATION, 2 = tooling ERROR. See DESIGN.md.",
+	}
+	if nas == nil {
+		m["not_applicable"] = []na{}
+	}
+	b, _ := json.MarshalIndent(m, "", " ")
+	if err := os.WriteFile(filepath.Join(verifDir, "MANIFEST.json"), append(b, '\n'), 0o644); err != nil {
+		fmt.Println("ERROR:", err)
+		return 2
 	}
 	return 0
 }
